@@ -231,7 +231,10 @@ Rel(t) ==
     /\ UNCHANGED <<watches, handlers, emitterFor, emitters, em, nextEm, failStart, obs, stopFlag, evq,
                    dpc, dcur, dleft, dcount, qlog, dlog, snap, lastFailed>>
 PutSentinel(t) ==
-    /\ cs[t].ph = "sentinel" /\ evq' = Append(evq, Sentinel)
+    \* the event queue skips an item equal to the last one put while that one is still queued (SkipRepeatsQueue):
+    \* a second stop() adds no second sentinel behind an unconsumed one (found by the spec -> code replay)
+    /\ cs[t].ph = "sentinel"
+    /\ evq' = IF evq # << >> /\ evq[Len(evq)] = Sentinel THEN evq ELSE Append(evq, Sentinel)
     /\ cs' = [cs EXCEPT ![t] = NoCall] /\ Advance(t)
     /\ UNCHANGED <<lockOwner, lockDepth, watches, handlers, emitterFor, emitters, em, nextEm, failStart, obs, stopFlag,
                    dpc, dcur, dleft, dcount, qlog, dlog, banned, snap, lastFailed>>
